@@ -463,12 +463,92 @@ def run(report, p):
             r5.check(is_plain_iter(p, n.iter), fde, n.iter, "directory entries are collected from a slice of the generations only")
             r5.check(not [x for s in n.body for x in ast.walk(s) if isinstance(x, (ast.Break, ast.Return)) and _loop_of(x) is n], fde, n, "collection of recorded directory entries stops before the last generation", construct=f"early exit in for {norm(n.target)} in {norm(n.iter)}")
 
+    # ------------------------------------------------------------------ R9.7
+    r7 = report.rule(
+        "R9.7",
+        "the list of formats that all have to fail for exit 12 holds only formats for which directory hashes can be compared: the formats of recorded root-hash entries, "
+        "or the -h option; the constant default is added only when that list is still empty after all generations were inspected (a format without any recorded "
+        "directory hash can never fail, so its presence makes exit 12 unreachable)",
+        2,
+    )
+    from .common import atomic_deps as _atomic
+
+    fmt_lists = set()
+    for n in walk_no_nested(dh.node):
+        if isinstance(n, ast.Call) and norm(n.func) == "sorted" and n.args and isinstance(n.args[0], ast.Name):
+            st = _stmt(n)
+            if isinstance(st, ast.Assign) and "format" in norm(st.targets[0]):
+                fmt_lists.add(n.args[0].id)
+    if not fmt_lists:
+        raise AnalysisError("verify -dh: the list of formats to verify (sorted into the format list) not found")
+    for call, tg in p.calls[dh.qual]:
+        if isinstance(call.func, ast.Attribute) and call.func.attr in ("append", "extend", "insert") and isinstance(call.func.value, ast.Name) and call.func.value.id in fmt_lists and call.args:
+            r7.instance(dh, call, norm(call)[:80])
+            arg = call.args[-1]
+            in_gen_loop = any(isinstance(a, ast.For) and any(o[0] == "attr" and o[2] == "hash_lists" for o in pr.origins(a.iter, dh)) for a in _anc(call))
+            at = set()
+            for t, l in g.control_deps(g.node_for(call)):
+                if t.kind == "test":
+                    at |= set(_atomic(t.ast, l))
+            for o in pr.origins(arg, dh):
+                flat = []
+
+                def _flatten(a, d=0):
+                    if d > 8:
+                        flat.append(a)
+                    elif a[0] == "elem":
+                        _flatten(a[1], d + 1)
+                    elif a[0] == "alt":
+                        for x in a[1]:
+                            _flatten(x, d + 1)
+                    elif a[0] == "op" and a[1] == "comp" and a[2]:
+                        _flatten(a[2][-1], d + 1)  # the element expression of a comprehension
+                    elif a[0] == "op" and a[1] in ("tuple", "list", "set", "collect-list", "collect-set", "elemof", "allof", "Add"):
+                        for x in a[2]:
+                            _flatten(x, d + 1)
+                    elif a[0] == "call" and a[1] in ("builtin:sorted", "builtin:list", "builtin:set", "builtin:tuple", "builtin:reversed") and a[2]:
+                        _flatten(a[2][0], d + 1)
+                    else:
+                        flat.append(a)
+
+                _flatten(pr.inline(o, depth=2))
+                for a in flat:
+                    leaves = [a]
+                    for lf in leaves:
+                        if lf[0] == "attr" and lf[2] == "hash_format":
+                            continue
+                        if lf[0] == "param" and "format" in lf[2]:
+                            if lf[1] != dh.qual:
+                                # a helper's default value: resolve it
+                                dflt = p.funcs[lf[1]].param_defaults().get(lf[2]) if lf[1] in p.funcs else None
+                                if isinstance(dflt, ast.Constant) and isinstance(dflt.value, str):
+                                    lf = ("const", dflt.value)
+                                else:
+                                    continue
+                            else:
+                                continue
+                        if lf[0] == "const" and isinstance(lf[1], str):
+                            guarded = any(a_ in ((call.func.value.id, "F"), (f"len({call.func.value.id}) == 0", "T")) for a_ in at)
+                            r7.check(guarded and not in_gen_loop, dh, call, f"the constant format {lf[1]!r} is put on the list of formats to verify {'for a single generation' if in_gen_loop else 'unconditionally'}: when no directory hash of that format is recorded it can never fail, and `every format failed` - the exit-12 condition - can never hold", construct=f"constant format {lf[1]!r} added to the verify list")
+                        elif lf[0] == "const":
+                            continue
+                        else:
+                            raise AnalysisError(f"verify -dh: line {call.lineno}: a format put on the list of formats to verify has a provenance that is not understood ({sig(lf)})")
+    r7.check(True, dh, dh.node, "")
+
     # ---- rules shared with other properties (same mechanism, same rule, reported under every property it can break)
     include_rules(report, p, 'c07', ['R7.1', 'R7.2', 'R7.3', 'R7.4'], 'verify -dh recomputes directory hashes with the same context wiring')
     include_rules(report, p, 'c03', ['R3.9'], 'verify dispatches -dh to its worker on every path')
     include_rules(report, p, 'c01', ['R1.1'], 'file digests feeding the directory hashes must cover the whole file')
     include_rules(report, p, 'c02', ['R2.1'], 'verify -dh walks the tree with the same traversal: the folder paths it yields are join(<start as given>, names), which the root-folder test compares with the start path')
     report.not_decided += ["that every change alters a directory hash (C07, collision resistance)", "verdicts for concrete trees"]
+
+
+def _anc(n):
+    x = parent(n)
+    while x is not None:
+        yield x
+        x = parent(x)
 
 
 def _signal_key(p, dh, st):
